@@ -196,18 +196,28 @@ class Concatenation(SubCheck):
         self.builder_b = pc.Builder(seed + 1)
         self.aspace = pc.spec_space(2, 0)
         self.bspace = pc.spec_space(2 if tier == "thorough" else 1, 0)
-        self.p = Product(range(len(self.aspace)), range(len(self.bspace) + len(SHAPES)))
-        self.bounds = dict(a_depth=2, b_depth=2 if tier == "thorough" else 1, shapes=len(SHAPES))
+        # b' either at its own coordinates, or moved so that its opening move lands exactly on a's current point, or on
+        # a's subpath start (the coincidences a "redundant move" shortcut would test for)
+        nb = len(self.bspace)
+        self.p = Concat(Product(range(len(self.aspace)), range(nb), ["own", "at-current", "at-start"]),
+                        Product(range(len(self.aspace)), range(nb, nb + len(SHAPES)), ["own"]))
+        self.bounds = dict(a_depth=2, b_depth=2 if tier == "thorough" else 1, shapes=len(SHAPES),
+                           placement=["own", "at-current", "at-start"])
 
     def size(self):
         return len(self.p)
 
     def case(self, i):
-        ai, bi = self.p[i]
+        ai, bi, place = self.p[i]
         a = " ".join(self.builder.build(self.aspace[ai]))
         if bi < len(self.bspace):
-            return {"a": a, "b": " ".join(self.builder_b.build(self.bspace[bi])), "shape": None}
-        return {"a": a, "b": None, "shape": SHAPES[bi - len(self.bspace)]}
+            pieces = self.builder_b.build(self.bspace[bi])
+            if place != "own":
+                st = pathspec.parse(a).states[-1]
+                pt = st[0] if place == "at-current" else st[1]
+                pieces = ["M %r,%r" % (float(pt[0]), float(pt[1]))] + list(pieces[1:])
+            return {"a": a, "b": " ".join(pieces), "shape": None, "place": place}
+        return {"a": a, "b": None, "shape": SHAPES[bi - len(self.bspace)], "place": place}
 
     def make_shape(self, kind):
         s = self.svg
@@ -236,6 +246,8 @@ class Concatenation(SubCheck):
         Path = svg.Path
         a = case["a"]
         pa = Path(a)
+        if case["shape"] is not None and case.get("place", "own") != "own":
+            return out      # shapes have their own coordinates
         if case["shape"] is None:
             other = Path(case["b"])
             bsegs = list(Path(case["b"]))
